@@ -241,14 +241,22 @@ def _validate(datum, schema, named_schemas, field, raise_errors, options):
         if datum is NoValue:
             datum = None
 
+        convertible = True
         logical_type = extract_logical_type(schema)
         if logical_type:
             prepare = LOGICAL_WRITERS.get(logical_type)
             if prepare:
-                datum = prepare(datum, schema)
+                try:
+                    datum = prepare(datum, schema)
+                except (ValueError, TypeError, OverflowError):
+                    # Not a value of this logical type (e.g. a string that is
+                    # no ISO date, a decimal that does not fit the scale)
+                    convertible = False
 
         validator = VALIDATORS.get(record_type)
-        if validator:
+        if not convertible:
+            result = False
+        elif validator:
             result = validator(
                 datum,
                 schema=schema,
